@@ -72,6 +72,7 @@ OutValid(c, pd) ==
 
 Match(e, optLine) ==
   /\ Clause("observable", ~e.unobservable)      \* the driver could read the library's state after the step
+  /\ Clause("reentry", ~e.hang)                 \* a controller call made from inside the event callback came back
   /\ Clause("exc",     InP("exc")     => e.exc = exc')
   /\ Clause("out",     InP("out")     => e.out = CmdsSeq(out'))
   \* the link: what reaches the connection in a step is what was handed to transport.send if the link is up; with the link
